@@ -213,6 +213,7 @@ def bounded(ctx):
             if not ok:
                 ctx.violate(fam3, f"pivots:{n}:{piv}:{tall}", f"{len(A)}x{n} matrix with pivot columns {list(piv)} violates the f2_algebra contracts",
                             {"args": [{"ndarray": A, "dtype": "int8"}], "pivots": list(piv)})
+    dtype_family(ctx)
     # rref_and_basis_change beyond the symbolically proved shapes
     fam4 = ctx.family("C18.bounded.rref_and_basis_change_random", BOUNDED, "native", "R = rref(A), M*A = R, M*Minv = I, Minv*M = I on random matrices up to 12x12 (int8 and int64 input)")
     fam4.exhaustive = False
@@ -245,6 +246,81 @@ def bounded(ctx):
             ctx.violate(fam2, f"history:{m}x{n}:{A.tobytes().hex()[:24]}",
                         f"after calls on matrices with the same flattened entries, the {bad.shape[0]}x{bad.shape[1]} call violates the f2_algebra contracts (call history leaks)",
                         {"args": [{"ndarray": bad.tolist(), "dtype": "int8"}], "sequence": [x.tolist() for x in seq]})
+
+
+DTYPES = ("bool", "int8", "uint8", "int16", "int32", "int64", "uint32")
+
+
+def _dtype_contracts(A):
+    """all four routines on one 0/1 matrix of any integer / boolean dtype; returns the name of the first violated clause or None"""
+    import htstabilizer.f2_algebra as f2
+    A0 = A.copy()
+    Ai = A0.astype(np.int64)
+    m, n = A.shape
+    try:
+        Bm, piv = f2.rref(A)
+        if not (isinstance(Bm, np.ndarray) and Bm.shape == (m, n)):
+            return "rref: shape"
+        Bi = np.asarray(Bm).astype(np.int64)
+        if not (set(np.unique(Bi)) <= {0, 1} and bool(C.L.B(C.L.rref_form(Bi.astype(np.int8), list(piv)))) and C.native_same_kernel(Ai.astype(np.int8), Bi.astype(np.int8))):
+            return "rref: not the reduced row echelon form of the row space"
+        r = f2.rank(A)
+        if r != len(piv):
+            return "rank"
+        K = f2.null_space(A)
+        if not (isinstance(K, np.ndarray) and K.ndim == 2 and K.shape == (n - r, n)):
+            return "null_space: shape"
+        Ki = K.astype(np.int64)
+        if ((Ai @ Ki.T) % 2).any() or (K.shape[0] and len(C._rowspace_key(Ki)) != n - r):
+            return "null_space: not a basis of the kernel"
+        R, Mx, Minv = f2.rref_and_basis_change(A)
+        eye = np.eye(m, dtype=np.int64)
+        Ri = np.asarray(R).astype(np.int64) % 2
+        if not (np.array_equal(Ri, Bi) and np.array_equal((Mx.astype(np.int64) @ Ai) % 2, Ri) and np.array_equal((Mx.astype(np.int64) @ Minv.astype(np.int64)) % 2, eye)
+                and np.array_equal((Minv.astype(np.int64) @ Mx.astype(np.int64)) % 2, eye)):
+            return "rref_and_basis_change"
+        if not (np.array_equal(A, A0) and A.dtype == A0.dtype):
+            return "argument modified"
+    except Exception as e:
+        return f"raised {type(e).__name__}: {e}"
+    return None
+
+
+def _dtype_job(args):
+    m, n, lo, hi = args
+    out = []
+    for code in range(lo, hi):
+        bits = np.array([(code >> i) & 1 for i in range(m * n)], dtype=np.int8).reshape(m, n)
+        for dt in DTYPES:
+            A = bits.astype(dt)
+            bad = _dtype_contracts(A)
+            if bad is None and dt in ("bool", "int64"):
+                bad = _dtype_contracts(np.asfortranarray(A))
+            if bad is not None:
+                out.append((m, n, code, dt, bad))
+    return (hi - lo) * len(DTYPES), out
+
+
+def dtype_family(ctx):
+    """GROUND: the element type of a 'binary matrix' is part of the input.  EVERY 0/1 matrix with m*n <= 10 (thorough: 13) entries, in seven integer / boolean dtypes
+    (bool and int64 also in Fortran order), through all four routines."""
+    fam = ctx.family("C18.ground.all_small_matrices_all_dtypes", core.GROUND, "native+oracle",
+                     "rref / rank / null_space / rref_and_basis_change contracts on every 0/1 matrix of the listed sizes in dtypes " + ", ".join(DTYPES))
+    fam.exhaustive = True
+    cap = 10 if ctx.quick else 13
+    fam.domain = f"all shapes m x n with m*n <= {cap}: every 0/1 matrix x {len(DTYPES)} dtypes"
+    jobs = []
+    for m in range(1, cap + 1):
+        for n in range(1, cap // m + 1):
+            tot = 1 << (m * n)
+            step = 256
+            jobs += [(m, n, lo, min(tot, lo + step)) for lo in range(0, tot, step)]
+    for cnt, bad in core.pmap(_dtype_job, jobs, chunks=4):
+        ctx.record(fam, PROVED, {"matrices_x_dtypes": cnt} if fam.total == 0 else None, n=cnt - len(bad))
+        for m, n, code, dt, why in bad:
+            A = [[(code >> (i * n + j)) & 1 for j in range(n)] for i in range(m)]
+            ctx.record(fam, REFUTED, {"shape": [m, n], "dtype": dt})
+            ctx.violate(fam, f"dtype:{m}x{n}:{code}:{dt}", f"{m}x{n} 0/1 matrix {A} of dtype {dt}: {why}", {"args": [{"ndarray": A, "dtype": dt}], "clause": why})
 
 
 def replay(data):
